@@ -69,6 +69,12 @@ def handle (j : Json) : Except String Json := do
     -- the boxes LocalScipyMinimizer hands to scipy, in the order of p0
     let names ← jList jStr (← field bj "names")
     let given ← jAssoc (jPair jRat jRat) (← field bj "given")
+    if let .ok vj := bj.getObjVal? "values" then
+      -- the LOCAL minimiser: the default box only for a start value inside it
+      let vals ← jList jRat vj
+      let boxes := fillBoundsLocal Gen.localBoxOnlyIfInside Gen.defaultBox given (names.zip vals)
+      let oj : Option Rat → Json := fun o => match o with | some x => ratJ x | none => .null
+      return .arr (boxes.map fun b => Json.arr #[oj b.1, oj b.2]).toArray
     let boxes := fillBounds Gen.defaultBox given names
     return .arr (boxes.map fun b => Json.arr #[ratJ b.1, ratJ b.2]).toArray
   match j.getObjVal? "fit" with
